@@ -439,10 +439,11 @@ Proof.
   - (* MConsume *)
     destruct (queue_found s q) as [qu|]; [|exact H].
     destruct (fx_excl_owner fx && locked qu c); [exact H|].
-    destruct (find_consumer ch tag); [exact H|].
+    destruct (find_consumer ch _); [exact H|].
     destruct (_ && _)%bool; cbn [fst].
     + same_conns. auto.
-    + apply allch_set_chan; [eapply chinvp_set; [..|exact (H _ _ _ Hch)]; reflexivity|]. repeat same_conns. auto.
+    + apply allch_set_chan; [eapply chinvp_set; [..|exact (H _ _ _ Hch)]; reflexivity|].
+      destruct (seqb tag ""%string); repeat same_conns; auto.
   - (* MCancel *)
     destruct (find_consumer ch tag); [|exact H]. cbn [fst].
     apply allch_upd_chan; [intros ch0 Hc0; eapply chinvp_set; [..|exact Hc0]; reflexivity|]. apply CI_consumer_stop. exact H.
